@@ -280,6 +280,8 @@ PROC_CMDS = SWEEP_BASES + HASH_CMDS + [
      '--excitation-pulse=2,1', '--near-field=1,1,1,.5,.5,.5,2,1,2', '--option=near-field', '--option=far-field', '--option=far-field-absolute', '--ff-distance=100'],
     ['-w', '6,0,0,0,0,0,5,0.002', '--medium=13,0.005,0,5', '--medium=3,0.001,-1', '--boundary=circular', '--radial-count=8', '--radial-radius=0.001', '--excitation-pulse=1'],
     W3 + ['--excitation-pulse=2', '--frequency-increment=1', '--frequency-steps=3', '--skin-effect-conductivity=1e5'],
+    # time measurement on: its lines belong on standard error, the report and the files stay byte-identical
+    W2 + ['-T', '--excitation-pulse=2', '--near-field=1,2,3,0.5,0.5,0.5,2,1,2', '--option=near-field', '--option=far-field', '--frequency-increment=1', '--frequency-steps=2'],
 ]
 
 
